@@ -37,6 +37,9 @@ def tasks(tier):
     # single working precision over double-precision callbacks: conversions must not touch the caller's objects
     for pol, fmt, c, W in (("cached", "coo", ["eq0"], 0), ("memo", "csr", ["eq0"], 0), ("cached", "csc", ["eqb"], 0), ("memo", "coo", ["ge"], 1)):
         t.append(dict(module="xform", fn="h_transform", shape=dict(vars=["boxed"], cons=c, W=W, fmt=fmt, policy=pol, rounds=2, single=True), opts=dict(exp_window=(-4, 4))))
+    # the step solvers on matrices the callbacks keep (all four formulations, CSR / CSC / COO)
+    for sv, f in (("Standard", "csr"), ("Symmetric", "csc"), ("Asymmetric", "csr"), ("Asymmetric", "csc"), ("Extended", "coo")):
+        t.append(dict(module="steps", fn="h_owned", shape=dict(vars=["boxed"], cons=["eq0"], solver=sv, fmt=f), opts=dict(nra=True, timeout_ms=60000)))
     if tier == "quick":
         for pol in ("cached", "memo"):
             for k, (fmt, c, W) in enumerate([("coo", ["eq0"], 1), ("csr", ["ge"], 1), ("csc", ["eqb"], 1), ("coo", ["eqb"], 0), ("csr", ["ranged"], 0), ("coo", ["ge"], 0)]):
